@@ -206,6 +206,7 @@ class Driver:
             "aborting": bool(getattr(p, "_aborting", False)) if p else False,
             "nready": p._ready_batches.qsize() if p is not None and hasattr(p, "_ready_batches") else 0,
             "running": bool(getattr(p, "_running", False)) if p else False,
+            "exception": bool(getattr(p, "_exception", False)) if p else False,
             "blocked": 1 if st == "ret" else 0,
             "blocked_on": self.trk_of_batch[info[1]] if st == "ret" else None,
             "caller": st,
